@@ -63,7 +63,9 @@ F = {
  "F10": dict(cls="arc-inspect-not-dependent",
    what="strong_count/get_mut never observe a concurrent drop or clone: RefDec does not depend on an earlier Inspect (rt/arc.rs last_dependent_access)",
    entries=[(p, "missing", "cfg  | T0: anew 0; aclone 0 1; spawn 1; acount 0; adrop 0; join 1 | T1: adrop 1",
-             "ok 0:0=- 0:1=- 0:2=- 0:3=v:1 0:4=v:1 0:5=- 1:0=v:0") for p in ("C01", "C11")]),
+             "ok 0:0=- 0:1=- 0:2=- 0:3=v:1 0:4=v:1 0:5=- 1:0=v:0") for p in ("C01", "C11")] +
+           [("C15", "bound-not-subset", "cfg  | T0: anew 0; aclone 0 1; aclone 0 2; spawn 1; spawn 2; acount 0; acount 0; adrop 0; join 1; join 2 | T1: acount 1; agetmut 1; aunwrap 1; ifeq 1 err:0 1; adrop 1 | T2: acount 2; aunwrap 2; ifeq 1 err:0 1; adrop 2",
+             "ok 0:0=- 0:1=- 0:2=- 0:3=- 0:4=- 0:5=v:3 0:6=v:3 0:7=v:0 0:8=- 0:9=- 1:0=v:1 1:1=v:1 1:2=ok:0 2:0=v:2 2:1=err:0 2:3=v:0")]),
  "F12": dict(cls="raw-alloc-leak-abort",
    what="a leaked loom::alloc::alloc block aborts the process (panic in a destructor while the failing iteration unwinds: the raw_allocations map is dropped outside the model) instead of the 'Allocation leaked' panic",
    entries=[(p, "abort", "cfg  | T0: alloc 0", "abort") for p in ("C10", "C06")]),
@@ -74,6 +76,9 @@ F = {
  "F17": dict(cls="unpark-edge-without-park",
    what="unpark transfers the unparker's causality to the target at once, although nothing is ordered unless a park consumes the token: a data race is hidden (Thread::unpark, rt/thread.rs)",
    entries=[(p, "missed_failure", "cfg c=1 | T0: spawn 1; cwr 0 1; unpark 1; join 1 | T1: crd 0", "causality") for p in ("C01", "C04", "C08")]),
+ "F19": dict(cls="park-unbranched-token-test",
+   what="thread::park tests the token without a branch point and unpark is not a branch point, so the order of an unpark and the token test is explored only when another branch point happens to separate them: outcomes / deadlocks of the other order are never explored (rt/mod.rs park, thread.rs unpark)",
+   entries=[(p, "missed_failure", "cfg c=1 | T0: spawn 1; park; crd 0; park; join 1 | T1: unpark 0; unpark 0", "deadlock") for p in ("C01", "C05", "C08")]),
  "F18": dict(cls="unpark-token-cleared",
    what="a pending park token is cleared when another thread releases a lock the target used earlier: set_runnable on every thread whose stale `operation` names the lock (Mutex::release_lock, RwLock::unlock_threads, Channel::send) -> false deadlock",
    entries=[(p, "badverdict", "cfg m=1 | T0: spawn 1; unpark 1; lock 0; unlock 0; join 1 | T1: lock 0; unlock 0; park", "deadlock") for p in ("C01", "C05", "C08")]),
